@@ -213,6 +213,42 @@ func c16RW(rc *RunCtx) {
 			p := c16Payload(l, byte(i))
 			var err error
 			how := simrt.Choose(3)
+			if simrt.Choose(6) == 0 {
+				// PackTCPBuffer on a real message around the 65535-byte limit (TXT data
+				// does not compress): what it returns is either an error or exactly
+				// one frame whose header equals the number of bytes that follow
+				target := []int{60000, 65000, 65500, 65600, 66000, 70000, 80000}[simrt.Choose(7)]
+				m := new(dns.Msg)
+				m.SetQuestion("big.test.", dns.TypeTXT)
+				for k := 0; m.Len() < target-300; k++ {
+					m.Answer = append(m.Answer, &dns.TXT{Hdr: dns.RR_Header{Name: "big.test.", Rrtype: dns.TypeTXT, Class: 1, Ttl: uint32(k)},
+						Txt: []string{fmt.Sprintf("%04d", k) + string(bytes.Repeat([]byte{byte('a' + k%26)}, 240))}})
+				}
+				plain, perr := m.Pack()
+				buf, err := pool.PackTCPBuffer(m)
+				simrt.Fault("pack_around_frame_size_limit")
+				if err != nil {
+					if perr == nil && len(plain) <= 65535 {
+						rc.Fail("write_failed", "PackTCPBuffer refused a message that packs to %d bytes: %v", len(plain), err)
+						return
+					}
+					simrt.Probe("c16.oversize_refused")
+					continue
+				}
+				if got := int((*buf)[0])<<8 | int((*buf)[1]); got != len(*buf)-2 {
+					rc.Fail("oversize_message_framed", "PackTCPBuffer returned a frame whose length header says %d but %d bytes follow (the message packs to %d bytes uncompressed)", got, len(*buf)-2, len(plain))
+					return
+				}
+				p = append([]byte(nil), (*buf)[2:]...)
+				_, err = a.Write(*buf)
+				pool.ReleaseBuf(buf)
+				if err != nil {
+					rc.Fail("write_failed", "writing a %d-byte frame failed: %v", len(p), err)
+					return
+				}
+				msgs = append(msgs, sent{data: p, ok: true})
+				continue
+			}
 			if how == 2 && l <= 4000 {
 				// PackTCPBuffer on a real message of roughly that size
 				m := new(dns.Msg)
